@@ -4,7 +4,7 @@ use crate::core::{DynScenario, Tier};
 use crate::scen;
 
 pub fn all_scenarios() -> Vec<Box<dyn DynScenario>> {
-    vec![Box::new(scen::c16::C16)]
+    vec![Box::new(scen::c16::C16), Box::new(scen::c14::C14)]
 }
 
 pub fn find_scenario(name: &str) -> Option<Box<dyn DynScenario>> {
@@ -49,6 +49,18 @@ pub fn property(id: &str) -> Option<PropSpec> {
             ],
             components_real: vec!["MurmurHash3X64128 / XxHash64 Hasher::write + finish (via verif hooks and via every sketch's update)", "HllSketch, ThetaSketch, CpcSketch, CountMinSketch<u64>, BloomFilter update/insert + serialize"],
             components_stub: vec!["chunking seam (harness Hash impl choosing the write boundaries)", "reference hashes (oracle)"],
+        },
+        "C14" => PropSpec {
+            id: "C14",
+            level: "fault_enumeration",
+            parts: vec![p("c14_corruption", BOTH, BOTH)],
+            rule: "one run = one valid image written by a real Writer node (family, configuration, mode and stream drawn from the run PRNG; 19 family/variant kinds incl. union results) plus a swarm-chosen subset of fault campaigns on the raw disk/wire: truncation at EVERY byte offset, every single-bit flip in the first 64 bytes, every byte of the first 48 bytes set to each of 17 boundary values, every aligned u16/u32/u64 header field set to boundary values (0,1,max-1,max,2^k,2^k+-1,len,len+-1), 20-80 random 1-3-fault combinations (truncate, bit flip, byte set, field set, zeroed/stale/duplicated/swapped sectors of 8/32/64/512 bytes, extension), splices with another image of the family, random buffers, and misrouting to every other family's reader. Each damaged buffer goes to every deserialize entry point of the family under an allocation scope and a panic guard in a supervised child; every Ok value then runs the recovery workload (accessors, 64 updates, merges both ways, to_sketch, re-serialize, re-deserialize). evaluations = runs (images); damaged buffers delivered = sum of faults_fired. A run is non-trivial if at least one damaged buffer was delivered; distinct = distinct (family, image-length bucket, set of fault kinds fired, reader Ok/Err outcomes) keys.",
+            assumptions: vec![
+                "allocation accounting is per thread and per call scope (net of frees inside the scope); budget 64*len + 64 KiB, except values whose own configuration implies their size (empty-form Bloom / Count-Min, purged Frequent Items map), exempt up to the 1 GiB hard cap",
+                "operations on damaged-but-Ok values are limited to those whose documented preconditions can still be met (no additions when a total would exceed the counter type)",
+            ],
+            components_real: vec!["every deserialize entry point + CpcWrapper::new", "all accessors, update, merge/union, to_sketch/compact/freeze, serialize on the values returned", "Writer node: real sketches of every family producing the pristine images"],
+            components_stub: vec!["raw disk / wire with fault injector", "allocator seam (counting + 1 GiB hard cap)", "child-process supervisor (abort / hang detection)"],
         },
         _ => return None,
     })
